@@ -244,6 +244,83 @@ def write_replay(pid, kind, payload):
     return path
 
 
+
+HEXRE = re.compile(r"^(?:[0-9a-f]{2})+$")
+
+
+def _chunks_removed(items):
+    """ddmin-style candidates: remove halves, quarters, ..., single items (larger removals first)."""
+    n = len(items)
+    out, size = [], n // 2
+    seen = set()
+    while size >= 1:
+        for st in range(0, n, size):
+            c = tuple(items[:st] + items[st + size:])
+            if c not in seen and len(c) < n:
+                seen.add(c); out.append(list(c))
+        size //= 2
+    return out
+
+
+def shrink_candidates(line, limit=400):
+    f = line.split("\t")
+    cands = []
+    for i in range(2, len(f)):
+        v = f[i]
+        if v in ("-", "_", ""):
+            continue
+        for sep in (";", "|", ","):
+            if sep in v:
+                parts = v.split(sep)
+                for c in _chunks_removed(parts):
+                    nv = sep.join(c) if c else "-"
+                    cands.append(f[:i] + [nv] + f[i + 1:])
+                break
+        else:
+            if HEXRE.match(v) and len(v) >= 2:
+                bs = [v[j:j + 2] for j in range(0, len(v), 2)]
+                for c in _chunks_removed(bs):
+                    cands.append(f[:i] + ["".join(c) if c else "-"] + f[i + 1:])
+    return ["\t".join(c) for c in cands[:limit]]
+
+
+def shrink(cfg, exe, work, tier, line, clause, kid, rounds=25):
+    """Generic protocol-level shrinking: drop list elements / ops / bytes while the same spec clause
+    still fails on the real code. Every candidate is re-executed by the harness (fresh observation)."""
+    cur = line
+    key = clause.split(" ")[0]
+    for rnd in range(rounds):
+        cands = shrink_candidates(cur)
+        if not cands:
+            break
+        rin = os.path.join(work, "shrink_in.txt"); cf = os.path.join(work, "cases_shrink.txt"); vf = os.path.join(work, "verdicts_shrink.txt")
+        with open(rin, "w") as fh:
+            for j, c in enumerate(cands):
+                ff = c.split("\t"); ff[1] = f"k{rnd}.{j}"
+                fh.write("\t".join(ff) + "\n")
+        for pth in (cf, vf):
+            if os.path.exists(pth): os.remove(pth)
+        try:
+            rc, out = run_harness(cfg, exe, 0, 0, tier, cf, replay=rin, timeout=600)
+            if rc != 0 or not os.path.exists(cf): break
+            rc, err = run_driver(cfg, cf, vf, timeout=600)
+            if rc != 0: break
+        except Exception:
+            break
+        cases, order, dist, verdicts = parse_results(cf, vf)
+        nxt = None
+        for cid in order:
+            v = verdicts.get(cid)
+            if not v or len(v) < 3: continue
+            if v[1].startswith("S=FAIL:") and v[1][7:].split(" ")[0] == key and (v[2][2:] or "-") == (kid or "-"):
+                if nxt is None or len(cases[cid]) < len(nxt):
+                    nxt = cases[cid]
+        if nxt is None or len(nxt) >= len(cur):
+            break
+        cur = nxt
+    return cur
+
+
 def analyse(cfg, cases, order, verdicts, known_ids):
     """returns dict with lists of ids: fails (unknown), known (id->list), diffs, bad; tag counts"""
     r = {"fails": [], "known": {}, "diffs": [], "bad": [], "tags": {}, "nontrivial": set(), "ok": 0, "missing": []}
@@ -448,9 +525,15 @@ def main():
             print(f"KNOWN-FINDING: property={pid} {k['id']} {k['what']} (seen on {len(hits)} case(s) this run)")
             known_lines.append(k["id"])
     if fails:
-        tag, line, clause, kid = fails[0]
+        tag, line, clause, kid = min(fails, key=lambda x: len(x[1]))
+        small = line
+        if cfg.get("shrink", True):
+            try:
+                small = shrink(cfg, exe, work, tier, line, clause, kid)
+            except Exception as e:
+                notes.append(f"shrink failed: {e}")
         rp = write_replay(pid, "input", {"property": pid, "kind": cfg.get("replay_kind", "input"), "seed": seed,
-                          "clause": clause, "cases": [line], "others": [l for _, l, _, _ in fails[1:6]],
+                          "clause": clause, "cases": [small], "unshrunk": line, "others": [l for _, l, _, _ in fails[1:6]],
                           "n_failing": len(fails),
                           "replay_cmd": f"./check {pid} --replay <this file>"})
         print(f"VIOLATION property={pid} replay={rp}")
